@@ -4,6 +4,7 @@ import (
 	"context"
 	"encoding/json"
 	"fmt"
+	"math/rand"
 	"sort"
 	"strings"
 	"time"
@@ -344,37 +345,7 @@ func graphReplay(run *core.Run, rel *storeRel, maxCap int, mk func(cap int) stor
 		walks = 6000
 	}
 	r := run.Rand(fmt.Sprint("store-walks", viaHandler))
-	// events that have to do with each other: one names the other in an e / a tag, or both have the
-	// same author and kind (versions of an address, requests of one author)
-	addrOf := func(e abs.Event) string {
-		d := ""
-		for _, t := range e.Tags {
-			if t.Name == "d" {
-				d = t.Val
-				break
-			}
-		}
-		return fmt.Sprintf("%d:%s:%s", e.Kind, e.Author, d)
-	}
-	related := map[string][]string{}
-	for _, x := range labels {
-		for _, y := range labels {
-			if x == y {
-				continue
-			}
-			ex, ey := rel.Universe[x], rel.Universe[y]
-			rl := ex.Author == ey.Author && ex.Kind == ey.Kind
-			for _, t := range ex.Tags {
-				if (t.Name == "e" && t.Val == y) || (t.Name == "a" && t.Val == addrOf(ey)) {
-					rl = true
-				}
-			}
-			if rl {
-				related[x] = append(related[x], y)
-				related[y] = append(related[y], x)
-			}
-		}
-	}
+	related := relatedLabels(labels, rel.Universe)
 	for w := 0; w < walks && run.Violations() < 8; w++ {
 		cap := 1 + r.Intn(maxCap)
 		st := mk(cap)
@@ -383,16 +354,7 @@ func graphReplay(run *core.Run, rel *storeRel, maxCap int, mk func(cap int) stor
 		// two of three walks stay inside a small theme: a seed event, what is related to it, two fillers
 		pool := labels
 		if w%3 != 0 {
-			seed := labels[r.Intn(len(labels))]
-			pool = append([]string{seed}, related[seed]...)
-			for _, y := range related[seed] {
-				pool = append(pool, related[y]...)
-			}
-			if len(pool) > 9 {
-				r.Shuffle(len(pool)-1, func(i, j int) { pool[i+1], pool[j+1] = pool[j+1], pool[i+1] })
-				pool = pool[:9]
-			}
-			pool = append(pool, labels[r.Intn(len(labels))], labels[r.Intn(len(labels))])
+			pool = themedPool(r, labels, related)
 		}
 		for step := 0; step < 16; step++ {
 			a := pool[r.Intn(len(pool))]
@@ -646,4 +608,53 @@ func C05(run *core.Run) {
 	run.Assume = append(run.Assume,
 		"address references are exercised on addressable events only (kind:pubkey:d), as the property states",
 		"self-referencing deletion requests cannot exist with authentic ids and are not generated")
+}
+
+// relatedLabels: events that have to do with each other: one names the other in an e / a tag, or
+// both have the same author and kind (versions of an address, requests of one author).
+func relatedLabels(labels []string, universe map[string]abs.Event) map[string][]string {
+	addrOf := func(e abs.Event) string {
+		d := ""
+		for _, t := range e.Tags {
+			if t.Name == "d" {
+				d = t.Val
+				break
+			}
+		}
+		return fmt.Sprintf("%d:%s:%s", e.Kind, e.Author, d)
+	}
+	related := map[string][]string{}
+	for _, x := range labels {
+		for _, y := range labels {
+			if x == y {
+				continue
+			}
+			ex, ey := universe[x], universe[y]
+			rl := ex.Author == ey.Author && ex.Kind == ey.Kind
+			for _, t := range ex.Tags {
+				if (t.Name == "e" && t.Val == y) || (t.Name == "a" && t.Val == addrOf(ey)) {
+					rl = true
+				}
+			}
+			if rl {
+				related[x] = append(related[x], y)
+				related[y] = append(related[y], x)
+			}
+		}
+	}
+	return related
+}
+
+// themedPool: a seed event, what is related to it (two levels, at most nine), two fillers.
+func themedPool(r *rand.Rand, labels []string, related map[string][]string) []string {
+	seed := labels[r.Intn(len(labels))]
+	pool := append([]string{seed}, related[seed]...)
+	for _, y := range related[seed] {
+		pool = append(pool, related[y]...)
+	}
+	if len(pool) > 9 {
+		r.Shuffle(len(pool)-1, func(i, j int) { pool[i+1], pool[j+1] = pool[j+1], pool[i+1] })
+		pool = pool[:9]
+	}
+	return append(pool, labels[r.Intn(len(labels))], labels[r.Intn(len(labels))])
 }
